@@ -118,7 +118,7 @@ theorem optional_survives (O : Oracles) (opts : DeserOpts) (g : FieldDecl) (v : 
     ∃ j, ser O (.anyOf [.noneF, g]) v = .ok j ∧ isJson j = true
       ∧ deser O opts false (.anyOf [.noneF, g]) j = .ok v := by
   have hf' : inFrag O (.anyOf [.noneF, g]) v = true := by
-    simp [inFrag, inFragOpt, isNoneF, hn, hc, hf]
+    simp [inFrag, inFragOpt, isNoneDecl, hn, hc, hf]
   have hc' : conforms O (.anyOf [.noneF, g]) v = true := by
     simp [conforms, conformsAny, hc]
   rcases round_trip O opts _ v hc' hf' with ⟨j, h1, h2, _, h4, _⟩
